@@ -27,7 +27,7 @@ EXPLANATION = (
     "expression for challenge and verification; checkPassword/checkHash compare the response field with calcResponse over "
     "the right fields, and the m.update() sequences of calcHA1/calcHA2/calcResponse equal RFC 2617 on every path. "
     "Not decided: the hash arithmetic itself, conditional TypeErrors of checkPassword (md5-sess without cnonce, "
-    "qop=auth-int); the unconditional ones (unknown algorithm, missing uri) are reported as known findings."
+    "qop=auth-int); the unconditional ones (unknown algorithm, missing uri) are reported as known findings. "
     "Also decided: no anchor on the decode->guards path (nor the clock, nonce and opaque generators) carries a decorator, second definition or rebinding that could answer a call without executing the body (memoisation of a verdict that depends on the clock); the pure _digest helpers may be cached. "
 )
 ASSUMPTIONS = [
